@@ -7,12 +7,16 @@ model (driver drv_c05).  Exact int32 values; keys compared as key data; errors b
 """
 from __future__ import annotations
 
+import collections.abc
 import copy
+import dataclasses
+import types
+import typing
 import functools
 import json
 
 from harness import compat  # noqa: F401
-from harness.common import LeanDriver, load_corpus
+from harness.common import LeanDriver, load_corpus, load_findings
 from harness.props import liftprog as lp
 from harness.props.liftprog import I
 
@@ -41,13 +45,13 @@ SPEC = {
     'A-RNG: threefry fold_in and SHA-1 are free constructors (keys are terms); A-PY: variable trees are dicts with distinct keys',
   ],
   'assumptions': [
-    'hash() of the module fingerprint tuple is injective on the generated cases (nn.jit compares modules by hash only)',
+    'nn.jit compares module fingerprints by equality of the fingerprint tuples (after the repair cfc8239; before, by hash only): attribute values that are == (1, True, 1.0) share a trace, as for JAX static arguments',
     'cond/switch/while_loop bodies draw no rngs (tracing every branch / the loop body once advances the shared counters; not promised by the property)',
     'lifted control flow is compared with Python control flow on the domain where JAX can trace it: every branch traces without error and with one tree structure; the loop body preserves the carry structure (documented in lift.cond / lift.while_loop)',
-    'one scope per transformed module (no Module or Variable passed as attribute or argument)',
+    'one scope tree leaf per transformed module (no Module or Variable passed as attribute or argument); child scopes of that module are modelled by path-prefixed variable names and path-keyed counters (inChild / rngAt), one theorem (pack_transparent_child) and the setup-child correspondence',
   ],
   'model_partial': [
-    'counter_delta_restore_partial: proved for a single rng stream (the recorded delta replayed on a cache hit restores the counters); the statement for arbitrary counter dicts (all streams, keys added while tracing) is not proved — tied by the call-history correspondence (keys drawn after a cache-hit call)',
+    'counter_delta_restore_partial (flat, single stream) is kept for the path-keyed `restoreCounters` the driver executes; the general statement is now proved as counter_delta_restore over the counter heap (nested dicts shared by reference, any number of streams and children, one level of nesting); deeper nesting than one child level and the equivalence flat-keys <-> heap are not proved (tied by the setup-child correspondence)',
   ],
 }
 
@@ -61,17 +65,79 @@ SEEDS = {s: 11 + i for i, s in enumerate(lp.STREAMS)}
 # ------------------------------------------------------------------------------------------------
 
 
-def make_cls(name, attr_names, methods):
-  ns = {'__annotations__': {a: int for a in attr_names}}
+ATTR_KINDS = ['fields', 'mappingproxy', 'custommapping', 'tuple', 'nestedlist', 'dataclass', 'module', 'dict']
+
+
+class FrozenMap(collections.abc.Mapping):
+  """A read-only Mapping that is neither a dict nor a FrozenDict nor serializable."""
+
+  def __init__(self, items):
+    self._d = dict(items)
+
+  def __getitem__(self, k):
+    return self._d[k]
+
+  def __iter__(self):
+    return iter(self._d)
+
+  def __len__(self):
+    return len(self._d)
+
+
+_CFG_TYPES = {}
+
+
+def _cfg_type(kind, names):
+  key = (kind, tuple(names))
+  if key not in _CFG_TYPES:
+    if kind == 'dataclass':
+      _CFG_TYPES[key] = dataclasses.make_dataclass('Cfg', [(n, int) for n in names], frozen=True)
+    else:
+      _CFG_TYPES[key] = type('Holder', (nn.Module,), {'__annotations__': {n: int for n in names}})
+  return _CFG_TYPES[key]
+
+
+def wrap_attrs(kind, attrs):
+  """The module attributes of the DSL packed into ONE attribute `cfg` of the given Python kind."""
+  items = sorted(attrs.items())
+  if kind == 'mappingproxy':
+    return types.MappingProxyType(dict(items))
+  if kind == 'custommapping':
+    return FrozenMap(items)
+  if kind == 'tuple':
+    return tuple(items)
+  if kind == 'nestedlist':
+    return [[k, [v]] for k, v in items]
+  if kind == 'dict':
+    return dict(items)
+  return _cfg_type(kind, [k for k, _ in items])(**dict(items))
+
+
+def unwrap_attrs(kind, names, cfg):
+  if kind in ('mappingproxy', 'custommapping', 'dict'):
+    return {k: cfg[k] for k in cfg}
+  if kind == 'tuple':
+    return dict(cfg)
+  if kind == 'nestedlist':
+    return {k: v[0] for k, v in cfg}
+  return {n: getattr(cfg, n) for n in names}
+
+
+def make_cls(name, attr_names, methods, kind='fields'):
+  ns = {'__annotations__': ({a: int for a in attr_names} if kind == 'fields' else {'cfg': typing.Any})}
   ns.update(methods)
   cls = type(name, (nn.Module,), ns)
   lp.KEEP_ALIVE.append(cls)
   return cls
 
 
-def body_method(fn, attr_names, log):
+def construct(cls, kind, attrs, **kw):
+  return cls(**attrs, **kw) if kind == 'fields' else cls(cfg=wrap_attrs(kind, attrs), **kw)
+
+
+def body_method(fn, attr_names, log, kind='fields'):
   def __call__(self, *args):
-    attrs = {a: getattr(self, a) for a in attr_names}
+    attrs = {a: getattr(self, a) for a in attr_names} if kind == 'fields' else unwrap_attrs(kind, attr_names, self.cfg)
     vals, keys = lp.run_instrs(self, fn, args, attrs, log)
     return tuple(vals), tuple(keys)
 
@@ -97,30 +163,31 @@ def build_id_modules(case):
   """Returns {'plain': (module_factory(attrs), sub_name), 'lifted': …}; the logs count python-body executions."""
   attr_names = sorted(case['attrs'])
   fn = case['fn']
+  kind = case.get('attr_kind', 'fields')
   out = {}
   for which in ('plain', 'lifted'):
     log = []
     tr = transform_of(case) if which == 'lifted' else (lambda x: x)
     post = case.get('post_streams', [])
     if case['style'] == 'class':
-      Body = make_cls('Body', attr_names, {'__call__': nn.compact(body_method(fn, attr_names, log))})
+      Body = make_cls('Body', attr_names, {'__call__': nn.compact(body_method(fn, attr_names, log, kind))}, kind)
       T = tr(Body)
       if case['placement'] == 'root':
-        factory = lambda attrs, T=T: T(**attrs)
+        factory = lambda attrs, T=T: construct(T, kind, attrs)
         sub = None
       else:
         explicit = case['placement'] == 'child'
 
         def top_call(self, *args, T=T, explicit=explicit):
           attrs = {a: getattr(self, a) for a in attr_names}
-          child = T(**attrs, name='sub') if explicit else T(**attrs)
+          child = construct(T, kind, attrs, name='sub') if explicit else construct(T, kind, attrs)
           return child(*args)
 
         Top = make_cls('Top', attr_names, {'__call__': nn.compact(top_call)})
         factory = lambda attrs, Top=Top: Top(**attrs)
         sub = 'sub' if explicit else (T.__name__ + '_0')
     else:  # decorator: a transformed compact method `body`, called from a plain __call__ that then draws keys
-      inner = nn.compact(body_method(fn, attr_names, log))
+      inner = nn.compact(body_method(fn, attr_names, log, kind))
       inner.__name__ = 'body'
 
       def outer(self, *args):
@@ -128,8 +195,8 @@ def build_id_modules(case):
         pk = tuple(jax.random.key_data(self.make_rng(s)) for s in post)
         return res + (pk,)
 
-      M = make_cls('M', attr_names, {'body': tr(inner), '__call__': outer})
-      factory = lambda attrs, M=M: M(**attrs)
+      M = make_cls('M', attr_names, {'body': tr(inner), '__call__': outer}, kind)
+      factory = lambda attrs, M=M: construct(M, kind, attrs)
       sub = None
     out[which] = (factory, sub, log)
   return out
@@ -445,6 +512,7 @@ def check_history_case(ctx, drv, case):
   ctx.count('transform', 'jit/history')
   ctx.count('style', case['style'] + '/' + case['placement'])
   ctx.count('history_len', len(calls))
+  ctx.count('attr_kind', case.get('attr_kind', 'fields'))
   ctx.count('history_changes', '+'.join(sorted({c['change'] for c in calls[1:]})) or 'none')
   cov = covered(case)
   ctx.count('covered_by_filters', cov)
@@ -822,6 +890,9 @@ def gen_history_case(rng):
   fn['body'].append(['put', col, name, {'add': [{'reg': 0}, {'attr': 'k'}]}])
   if rng.random() < 0.8:
     case['variables'] = lifting_filter(rng, fn, lp.COLS, 1.0)
+  case['attr_kind'] = rng.choice(ATTR_KINDS)
+  if rng.random() < 0.25:
+    case['attrs']['k'] = -1
   base = {'attrs': dict(case['attrs']), 'view': copy.deepcopy(case['view']), 'mutable': case['mutable'], 'args': list(case['args']), 'change': 'first'}
   calls = [base]
   for _ in range(rng.randrange(1, 4)):
@@ -829,7 +900,12 @@ def gen_history_case(rng):
     ch = rng.choice(['attr', 'mutable', 'structure', 'values', 'args', 'same', 'attr', 'mutable'])
     prev['change'] = ch
     if ch == 'attr':
-      prev['attrs']['k'] = prev['attrs']['k'] + rng.choice([1, 2])
+      k0 = prev['attrs']['k']
+      # value-only changes, including the CPython hash collision hash(-1) == hash(-2)
+      if k0 in (-1, -2) and rng.random() < 0.7:
+        prev['attrs']['k'] = -3 - k0
+      else:
+        prev['attrs']['k'] = rng.choice([v for v in (k0 + 1, k0 + 2, -1, -2) if v != k0])
     elif ch == 'mutable':
       prev['mutable'] = rng.choice([m for m in (True, False, [col], {'deny': col}, col) if m != prev['mutable']])
     elif ch == 'structure':
@@ -985,10 +1061,10 @@ def gen_autoname_case(rng):
 # ------------------------------------------------------------------------------------------------
 
 
-def check_setupchild_case(ctx, case):
+def check_setupchild_case(ctx, drv, case):
   """A child bound OUTSIDE the transformed code (defined in setup) draws keys before, inside and after a jitted /
   rematted method of its parent; the module also draws from its own scope after the call.  The same apply is repeated
-  (second and third run = jit cache hits).  Oracle: every repeat equals the first run; every draw made outside the
+  (second and third run = jit cache hits).  Model voice: `setupchild_model` (child draws = `Prog.rngAt`).  Oracle: every repeat equals the first run; every draw made outside the
   transformed method equals the untransformed rendering's; under remat all draws do."""
   t = case['transform']
   streams = case['streams']
@@ -1060,6 +1136,81 @@ def check_setupchild_case(ctx, case):
   flat = [tuple(k) for part in li[0][1] for k in part]
   if len(set(flat)) != len(flat):
     ctx.violation(f'setupchild-{t}-key-reused', f'nn.{t}: a key was drawn twice within one apply: {li[0][1]} on {where}', case)
+    return
+  mo = setupchild_model(drv, case)
+  if mo[0] != 'ok' or mo[1] != [r[1] for r in li]:
+    ctx.disagreements_checked += 1
+    ctx.violation(f'setupchild-{t}-model-mismatch', f'nn.{t} with a setup-defined child: implementation keys {[r[1] for r in li]} vs model {mo[1]} on {where}', case, concrete=False)
+
+
+def setupchild_model(drv, case):
+  """The Lean model's voice for one apply sequence of the setup-child family: the transformed method's body as child
+  draws (`rngat`), call by call through the model's nn.jit (trace cache + counter replay shared by all applies) or
+  remat; the draws made outside the transformed method follow from the counters.  Returns the expected outputs per
+  apply, or ('mismatch', why)."""
+  t = case['transform']
+  streams = sorted(set(case['streams']))
+  s0, s1 = case['streams'][0], case['streams'][-1]
+  body = [['rngat', ['d'], s0]] * case['inside']
+  if case['two_children']:
+    body = body + [['rngat', ['e'], s1]]
+  if case['own_inside']:
+    body = body + [['rng', s0]]
+  fn = {'body': body, 'ret': [{'add': [{'arg': 0}, {'lit': 1}]}]}
+  seeds = {s: jax.random.key(SEEDS[s]) for s in streams}
+
+  def scope(ctr):
+    return {'vars': [], 'mutable': False, 'rngs': [[s, [s, []]] for s in streams], 'counters': [[k, v] for k, v in ctr.items()]}
+
+  def draw(ctr, path, s):
+    k = '/'.join(path + [s])
+    ctr[k] = ctr.get(k, 0) + 1
+    return lp.keydata_from(lp.fold_in_static_ref(seeds[s], path + [ctr[k]]))
+
+  calls, plans = [], []
+  for _ in range(case['repeats']):
+    ctr = {s: 0 for s in streams}
+    a = [draw(ctr, ['d'], s0) for _ in range(case['pre'])]
+    call_ix = []
+    for _ in range(case['calls_inside']):
+      call_ix.append(len(calls))
+      calls.append(dict(ctr))
+      if t == 'jit':
+        for s in streams:
+          ctr[s] += 1
+      ctr['d/' + s0] = ctr.get('d/' + s0, 0) + case['inside']
+      if case['two_children']:
+        ctr['e/' + s1] = ctr.get('e/' + s1, 0) + 1
+      if case['own_inside']:
+        ctr[s0] += 1
+    after = dict(ctr)
+    c = [draw(ctr, ['d'], s0) for _ in range(case['post'])]
+    if case['two_children']:
+      c.append(draw(ctr, ['e'], s1))
+    own = [draw(ctr, [], s0)]
+    plans.append((a, call_ix, c, own, after))
+  if t == 'jit':
+    outs = drv.run([('jit_history', [True, True, True, fn, 'SetupM', [False, False, True, False, []], [[[], [1], scope(c)] for c in calls]])])
+    if outs[0][0] != 'ok':
+      return ('mismatch', f'driver: {outs[0]}')
+    res = [r['res'] for r in outs[0][1]]
+  else:
+    outs = drv.run([('lift', [[True], [True], [True], True, [], fn, [1], scope(c)]) for c in calls])
+    if any(o[0] != 'ok' for o in outs):
+      return ('mismatch', f'driver: {outs}')
+    res = [o[1] for o in outs]
+  expected = []
+  for a, call_ix, c, own, after in plans:
+    b = []
+    for j in call_ix:
+      if 'error' in res[j]:
+        return ('mismatch', f'model error {res[j]}')
+      b += [lp.keydata_from(lp.eval_symkey(k, seeds)) for k in res[j]['keys']]
+    last = {k: v for k, v in res[call_ix[-1]]['counters']}
+    if last != after:
+      return ('mismatch', f'model counters after the transformed calls {last} vs arithmetic {after}')
+    expected.append([a, b, c, own])
+  return ('ok', expected)
 
 
 def gen_setupchild_case(rng):
@@ -1070,6 +1221,63 @@ def gen_setupchild_case(rng):
     'two_children': two, 'pre': rng.randrange(0, 3), 'inside': rng.randrange(1, 4), 'post': rng.randrange(1, 3),
     'calls_inside': rng.randrange(1, 3), 'own_inside': rng.random() < 0.4, 'repeats': 3,
   }
+
+
+# ------------------------------------------------------------------------------------------------
+# finding B2: a jitted *method* that creates auto-named sub-modules, called twice in one compact method
+# ------------------------------------------------------------------------------------------------
+
+
+def report_finding(ctx, key, what, case):
+  """A reproduced defect of the unchanged code that is recorded in known_findings.json under `key`: reported as a
+  concrete violation (common.finish prints the KNOWN-FINDING line).  While the key is not registered yet it is kept as
+  a note, so that the check does not turn red between the report and the registration."""
+  if any(e.get('key') == key and e.get('status') == 'finding' for e in load_findings(ctx.prop)):
+    ctx.violation(key, what, case)
+  else:
+    ctx.notes.append(f'unregistered finding {key}: {what}')
+    ctx.extra.setdefault('unregistered_findings', []).append(key)
+
+
+def b2_probe(ctx):
+  """`nn.jit` caches the transform of a method together with the first call's closure (exported module state), and
+  module-state side effects (auto-name cursors) of a traced call are not replayed on a cache hit: a jitted helper that
+  creates an auto-named sub-module and is called twice inside one compact `__call__` yields `Leaf_0` twice, the plain
+  code `Leaf_0` and `Leaf_1` (init tree and apply values differ)."""
+  class Leaf(nn.Module):
+    @nn.compact
+    def __call__(self, x):
+      return x * self.param('w', lambda key: I(3))
+
+  lp.KEEP_ALIVE.append(Leaf)
+
+  def mk(jit):
+    deco = nn.jit if jit else (lambda f: f)
+
+    class H(nn.Module):
+      @deco
+      def helper(self, x):
+        return Leaf()(x)
+
+      @nn.compact
+      def __call__(self, x):
+        return self.helper(x) + 10 * self.helper(x)
+
+    lp.KEEP_ALIVE.append(H)
+    return H
+
+  params = {'params': {'Leaf_0': {'w': I(2)}, 'Leaf_1': {'w': I(5)}}}
+  obs = {}
+  for which, jit in (('plain', False), ('lifted', True)):
+    H = mk(jit)
+    tree = lp.call(lambda: sorted(H().init(jax.random.key(0), I(1))['params']))
+    vals = [lp.call(lambda: int(np.asarray(H().apply(params, I(1))))) for _ in range(2)]
+    obs[which] = {'init_children': tree, 'apply': vals}
+  case = {'kind': 'b2-probe', 'observed': obs}
+  ctx.case({'kind': 'b2-probe'})
+  ctx.count('b2_probe', 'differs' if obs['plain'] != obs['lifted'] else 'equal')
+  if obs['plain'] != obs['lifted']:
+    report_finding(ctx, 'jit-method-autoname-cursor-stale', f'a jitted method creating an auto-named sub-module, called twice in one compact __call__: transformed {obs["lifted"]} vs plain {obs["plain"]}', case)
 
 
 # ------------------------------------------------------------------------------------------------
@@ -1134,6 +1342,8 @@ def run_case(ctx, drv, case):
   k = case.get('kind')
   if k == 'f11-probe':
     f11_probe(ctx)
+  elif k == 'b2-probe':
+    b2_probe(ctx)
   elif k == 'id':
     check_id_case(ctx, drv, case)
   elif k == 'history':
@@ -1143,7 +1353,7 @@ def run_case(ctx, drv, case):
   elif k == 'autoname':
     check_autoname_case(ctx, case)
   elif k == 'setupchild':
-    check_setupchild_case(ctx, case)
+    check_setupchild_case(ctx, drv, case)
   else:
     ctx.notes.append(f'unknown corpus case kind {k}')
 
@@ -1176,6 +1386,7 @@ def run(ctx):
       ctx.notes.append('time budget reached, remaining generated cases skipped')
       break
   f11_probe(ctx)
+  b2_probe(ctx)
   for k in ('remat', 'history', 'cond', 'while'):
     for c in cases:
       if c.get('transform') == k or c.get('kind') == k:
